@@ -105,6 +105,28 @@ func init() {
 			}
 			ca := maprclient.NewAggregate(fmt.Sprintf("srv%d", i), q, global)
 			first := true
+			if len(a) > 3 && a[3] == "real" {
+				// the real aggregator goroutines (Start) instead of the per-interval accessor
+				var ivs [][]string
+				for _, iv := range sv {
+					var lines []string
+					if format == "csv" && first {
+						lines = append(lines, strings.Join(header, ","))
+						first = false
+					}
+					for _, kv := range iv {
+						lines = append(lines, renderLine(format, kv, header))
+					}
+					ivs = append(ivs, lines)
+				}
+				for _, msg := range sa.VerifRun(ivs) {
+					parts := strings.SplitN("AGGREGATE|"+fmt.Sprintf("srv%d", i)+"|"+msg, "|", 3)
+					if err := ca.Aggregate(parts[2]); err != nil {
+						continue
+					}
+				}
+				continue
+			}
 			for _, iv := range sv {
 				var lines []string
 				if format == "csv" && first {
